@@ -12,7 +12,8 @@
    every partition. *)
 EXTENDS Integers, Sequences, FiniteSets
 
-CONSTANTS AllCols, GeoCols, MaxOps            \* AllCols: sequence of column names; GeoCols: the geometry ones
+CONSTANTS AllCols, GeoCols, MaxOps,           \* AllCols: sequence of column names; GeoCols: the geometry ones
+          FixMetaNonempty                     \* TRUE = as committed (c721e9e); FALSE = the design before it (negative control)
 VARIABLES kind, cols, active, dgeom, meta, part, hist
 
 vars == <<kind, cols, active, dgeom, meta, part, hist>>
@@ -48,6 +49,13 @@ ToDask(n) == /\ kind = "geo" /\ active # "UNSPEC"
 (* ---- Dask frame ---- *)
 DaskRowOp(op) == /\ kind = "dask"                      \* boolean filter, cx, persist: partitions and meta keep _geometry (FIN)
                  /\ Log(op, "") /\ UNCHANGED <<kind, cols, active, dgeom, meta, part>>
+(* an operation whose meta Dask INFERS by running it on meta_nonempty(frame) - map_partitions without meta= is the plainest one.
+   class INFER: the partitions keep _geometry (FIN inside each partition); the collection's meta gets whatever meta_nonempty
+   carries: the active geometry (commit "fix: meta_nonempty of a GeoDataFrame keeps the active geometry"), before that commit
+   the first geometry column of a frame rebuilt from plain data (CTOR) *)
+DaskInferred(op) == /\ kind = "dask"
+                    /\ meta' = IF FixMetaNonempty THEN meta ELSE FirstGeo(cols)
+                    /\ Log(op, "") /\ UNCHANGED <<kind, cols, active, dgeom, part>>
 DaskSetGeometry(c) == /\ kind = "dask" /\ c \in Geo(ColSet)
                       /\ active' = c /\ meta' = c /\ part' = c        \* map_partitions(df.set_geometry(c)): meta and partitions
                       /\ Log("dask_set_geometry", c) /\ UNCHANGED <<kind, cols, dgeom>>
@@ -76,6 +84,7 @@ Next == /\ Len(hist) < MaxOps /\ kind # "plain"
            \/ Concat
            \/ \E n \in {1, 3} : ToDask(n)
            \/ \E op \in {"dask_filter", "dask_cx", "dask_persist"} : DaskRowOp(op)
+           \/ DaskInferred("dask_map_identity")
            \/ \E c \in GeoCols : DaskSetGeometry(c)
            \/ \E S \in SUBSET ColSet : DaskSubset(S)
            \/ Compute
